@@ -2432,12 +2432,11 @@ fn main() {
 
     let thorough = args.thorough();
     let enums: Vec<String> = if family == "credit" {
-        out.rule = "exhaustive: every op sequence of length <= 4 over alphabet c11 (26 ops: sent 1-3, acks file 0/1 x off 0-3, cancel with reason r0 and with the empty string, advance 0/1, resumes, credit 1-3 with window 2, reconnect, 2 pushes), length <= 7 over the 10-op alphabet c11s (and <= 5 under windows 0, 1, 3, 2^64-1 with capacity 0) and length <= 5 over the 12-op alphabet c11r (cancel with 8 reason strings: r0, the watchdog's \"transfer idle\", the empty string, blanks \" \\t\\n\", 65537 x 'x', non-ASCII incl. a 4-byte scalar, a NUL, \" Transfer Idle \"; credit, reconnect, advance, resume) (thorough: <= 5 / <= 8 in the dev profile / <= 6); random: the first 12 histories cross window and capacity in {0, 1, 2^64-1} (and `new`); one call in 40 is repeated 2-256 times back to back (thorough: up to 1000); cancel reasons drawn from r0-r2 and (one third) those edge strings; histories of <= 200 ops over the 64-bit boundary lattice (values near sent/acked/window, 2^32, 2^48, 2^63, 2^64-k), hostile acks (future, wrong file, u64::MAX), oversized chunks, one third following the documented producer loop. Distinct by op line; non-trivial = the op changed the observable state or returned something other than unit/timeout".into();
+        out.rule = "exhaustive: every op sequence of length <= 4 over alphabet c11 (26 ops: sent 1-3, acks file 0/1 x off 0-3, cancel with reason r0 and with the empty string, advance 0/1, resumes, credit 1-3 with window 2, reconnect, 2 pushes), length <= 7 over the 10-op alphabet c11s (and <= 5 under windows 0, 1, 3, 2^64-1 with capacity 0) and length <= 5 over the 12-op alphabet c11r (cancel with 8 reason strings: r0, the watchdog's \"transfer idle\", the empty string, blanks \" \\t\\n\", 65537 x 'x', non-ASCII incl. a 4-byte scalar, a NUL, \" Transfer Idle \"; credit, reconnect, advance, resume) (thorough: <= 5 / <= 7 / <= 6); random: the first 12 histories cross window and capacity in {0, 1, 2^64-1} (and `new`); one call in 40 is repeated 2-256 times back to back (thorough: up to 1000); cancel reasons drawn from r0-r2 and (one third) those edge strings; histories of <= 200 ops over the 64-bit boundary lattice (values near sent/acked/window, 2^32, 2^48, 2^63, 2^64-k), hostile acks (future, wrong file, u64::MAX), oversized chunks, one third following the documented producer loop. Distinct by op line; non-trivial = the op changed the observable state or returned something other than unit/timeout".into();
         if thorough {
-            // the deepest enumeration (c11s <= 8: 111 M sequences) once, in the dev profile; the release run
-            // repeats the quick depth
-            let deep = if cfg!(debug_assertions) { "enum e1 c11s 8 4" } else { "enum e1 c11s 7 4" };
-            let mut v: Vec<String> = vec!["enum e0 c11 5 3".into(), deep.into(), "enum e2 c11r 6 3".into()];
+            // c11s stays at the property's own bound (sequences of length <= 7): length 8 (111 M sequences, 200 s
+            // of CPU) was what made this tier take 20 min on a busy machine
+            let mut v: Vec<String> = vec!["enum e0 c11 5 3".into(), "enum e1 c11s 7 4".into(), "enum e2 c11r 6 3".into()];
             for (i, w) in [0u64, 1, 3, u64::MAX].iter().enumerate() {
                 v.push(format!("enum w{} c11s.{} 6 3", i, w));
             }
@@ -2477,7 +2476,7 @@ fn main() {
         exec_enum(&mut out, &line);
     }
     let ring_bias = family == "ring";
-    let (histories, max_len) = if thorough { (6000, 200) } else { (600, 200) };
+    let (histories, max_len) = if thorough { (3000, 200) } else { (600, 200) };
     run_random(&mut ex, &mut out, &mut rng, histories, max_len, ring_bias, &mut k);
 
     if let Some(h) = wd_thread {
@@ -2499,7 +2498,7 @@ fn main() {
 
     // concurrent callers: targeted races first, then generated ones
     out.rule.push_str(" | conc: 2-3 threads x 1-3 calls (resume / cancel / advance / ack / sent / credit / reconnect and the reads offsets, is_cancelled, cancel_reason, peer) released from a spin barrier on one real object whose displaced peer's sink takes a few microseconds to drop; the outcome (all return values + final state + what a reconnect wait hands over) must be the outcome of a sequential order respecting program order, decided on the real object's own sequential runs (oracle) and by the model (diff); non-trivial = more than one sequential outcome");
-    let (t_reps, t_budget, g_n, g_reps, g_budget) = if thorough { (60_000, 2000, 600, 1500, 100) } else { (12_000, 450, 110, 300, 25) };
+    let (t_reps, t_budget, g_n, g_reps, g_budget) = if thorough { (60_000, 1000, 600, 1500, 100) } else { (12_000, 450, 110, 300, 25) };
     let mut ci = 0;
     for spec in conc_targeted(ring_bias) {
         let line = format!("conc q{} {}", ci, spec);
@@ -2509,7 +2508,7 @@ fn main() {
     }
     // generated races stop when their share of the wall clock is used (a saturated machine runs fewer specs,
     // never a different verdict)
-    let g_wall = Duration::from_secs(if thorough { 60 } else { 9 });
+    let g_wall = Duration::from_secs(if thorough { 40 } else { 9 });
     let g_t0 = Instant::now();
     for _ in 0..g_n {
         if g_t0.elapsed() > g_wall {
